@@ -2,6 +2,7 @@ package props
 
 import (
 	"fmt"
+	"runtime"
 	"sort"
 	"sync/atomic"
 
@@ -284,7 +285,7 @@ func advArgs(m *model.Set32, limit int) []uint32 {
 		}
 		ks := m.Keys()
 		k := ks[len(ks)/2]
-		set[uint32(k)<<16] = struct{}{}            // start of a present chunk
+		set[uint32(k)<<16] = struct{}{}                // start of a present chunk
 		set[(uint32(k)+1)<<16&0xFFFFFFFF] = struct{}{} // start of the next chunk (maybe a gap)
 	}
 	out := make([]uint32, 0, len(set))
@@ -446,7 +447,6 @@ func unsetWindows(m *model.Set32) [][2]uint64 {
 	return out
 }
 
-
 func unsetChecks(b *roaring.Bitmap, m *model.Set32, depth int) (int, *ev.Fail) {
 	n := 0
 	for wi, w := range unsetWindows(m) {
@@ -523,6 +523,7 @@ func runC04(c *Ctx) {
 	p1 := &explore.Product{Name: "drains + early stops + Ranges", Dims: []int{len(corpus)}, Deadline: c.Budget(30, 600),
 		Run: func(idx []int) (string, *ev.Fail) {
 			b := corpus[idx[0]].Build()
+			defer runtime.KeepAlive(b)
 			n, f := drains(b.B, b.M)
 			atomic.AddInt64(&evals, int64(n))
 			return fmt.Sprint(n), f
@@ -530,6 +531,7 @@ func runC04(c *Ctx) {
 	p2 := &explore.Product{Name: fmt.Sprintf("NextMany size sequences <= %d", mdepth), Dims: []int{len(corpus)}, Deadline: c.Budget(60, 1000),
 		Run: func(idx []int) (string, *ev.Fail) {
 			b := corpus[idx[0]].Build()
+			defer runtime.KeepAlive(b)
 			n, f := manyProtocol(b.B, b.M, mdepth)
 			atomic.AddInt64(&evals, int64(n))
 			return fmt.Sprint(n), f
@@ -537,6 +539,7 @@ func runC04(c *Ctx) {
 	p3 := &explore.Product{Name: fmt.Sprintf("Iterator call sequences <= %d", depth), Dims: []int{len(corpus)}, Deadline: c.Budget(85, 1300),
 		Run: func(idx []int) (string, *ev.Fail) {
 			b := corpus[idx[0]].Build()
+			defer runtime.KeepAlive(b)
 			n, f := peekMachine("Iterator", func() roaring.IntPeekable { return b.B.Iterator() }, b.M.Slice(), advArgs(b.M, 6), depth)
 			atomic.AddInt64(&evals, int64(n))
 			return fmt.Sprint(n), f
@@ -544,6 +547,7 @@ func runC04(c *Ctx) {
 	p4 := &explore.Product{Name: "UnsetIterator windows + call sequences", Dims: []int{len(small)}, Deadline: c.Budget(115, 1700),
 		Run: func(idx []int) (string, *ev.Fail) {
 			b := small[idx[0]].Build()
+			defer runtime.KeepAlive(b)
 			n, f := unsetChecks(b.B, b.M, depth-1)
 			atomic.AddInt64(&evals, int64(n))
 			return fmt.Sprint(n), f
